@@ -258,7 +258,16 @@ class Ctx:
         if env:
             e.update(env)
         with open(inp) as fi:
-            r = subprocess.run([exe], stdin=fi, capture_output=True, text=True, env=e)
+            try:
+                r = subprocess.run([exe], stdin=fi, capture_output=True, text=True, env=e,
+                                   timeout=int(os.environ.get("VERIF_OP_TIMEOUT", "900")))
+            except subprocess.TimeoutExpired as ex:
+                class R:
+                    pass
+                r = R()
+                r.returncode = -999
+                r.stdout = (ex.stdout or b"").decode() if isinstance(ex.stdout, bytes) else (ex.stdout or "")
+                r.stderr = "TIMEOUT: the driver did not finish (possible non-termination)"
         return r
 
     def c(self, ops, tag="c"):
@@ -282,7 +291,7 @@ class Ctx:
             # a partially written last line is possible only without newline; stdout is flushed per op
             out += lines[:k]
             kind = "abort"
-            m = re.search(r"(AddressSanitizer: [\w-]+|runtime error: [^\n]+|Assertion [^\n]+|LeakSanitizer[^\n]*)", r.stderr)
+            m = re.search(r"(AddressSanitizer: [\w-]+|runtime error: [^\n]+|Assertion [^\n]+|LeakSanitizer[^\n]*|TIMEOUT[^\n]*)", r.stderr)
             if m:
                 kind = "abort " + m.group(1).replace(" ", "_")[:120]
             else:
